@@ -98,6 +98,10 @@ def render_pmodule(root: Path, tasks: list[dict], version: int) -> str:
             decos.append("@pytask.mark.skip")
         if t.get("persist"):
             decos.append("@pytask.mark.persist")
+        if t.get("prio") == 1:
+            decos.append("@pytask.mark.try_first")
+        if t.get("prio") == -1:
+            decos.append("@pytask.mark.try_last")
         if t.get("is_gen"):
             decos.append("@task(is_generator=True)")
         elif t.get("after_expr"):
